@@ -159,7 +159,7 @@ fn read_fmt<R: Read>(fmt: &str, src: R) -> (Vec<u8>, Option<u32>, bool) {
             match LZMAReader::new_mem_limit(src, u32::MAX, None) { Ok(mut r) => slurp(&mut r), Err(e) => (vec![], Some(code_of(&e))) }
         } else if fmt == "lzma2" || fmt == "lzma2f" {
             slurp(&mut LZMA2Reader::new(src, 1 << 16, None))
-        } else if fmt == "xz" {
+        } else if fmt == "xz" || fmt == "xzcat" {
             slurp(&mut XZReader::new(src, true))
         } else if fmt == "lzip" {
             match LZIPReader::new(src) { Ok(mut r) => slurp(&mut r), Err(e) => (vec![], Some(code_of(&e))) }
@@ -201,6 +201,21 @@ fn write_fmt<W: Write>(fmt: &str, data: &[u8], sink: W) -> (Option<W>, Option<u3
             let mut w = XZWriter::new(sink, opt)?;
             w.write_all(data)?;
             w.finish()
+        } else if fmt == "xzcat" {
+            // three concatenated streams (one of them empty) separated by stream padding of 4 and 8 bytes
+            let cut = data.len() / 2;
+            let mut all = Vec::new();
+            for (piece, pad) in [(&data[..cut], 4usize), (&data[..0], 8), (&data[cut..], 0)] {
+                let mut opt = XZOptions::with_preset(0);
+                opt.lzma_options = o.lzma(None);
+                let mut w = XZWriter::new(Vec::new(), opt)?;
+                w.write_all(piece)?;
+                all.extend_from_slice(&w.finish()?);
+                all.extend(std::iter::repeat(0u8).take(pad));
+            }
+            let mut sink = sink;
+            sink.write_all(&all)?;
+            Ok(sink)
         } else if fmt == "lzip" {
             let mut opt = LZIPOptions::with_preset(0);
             opt.lzma_options = o.lzma(None);
@@ -342,7 +357,7 @@ pub fn gen(rng: &mut Rng, tier: &str, dist: &mut Dist) -> Vec<String> {
         cmds.push(format!("wa {} {}", if sitems.is_empty() { ".".into() } else { sitems.join(",") }, hex(&buf)));
     }
     // (2) readers and writers of every format under faults
-    let fmts = ["lzma1", "lzma2", "lzma2f", "xz", "lzip", "delta:1", "delta:7", "x86", "arm", "armthumb", "arm64", "ppc", "sparc", "ia64", "riscv"];
+    let fmts = ["lzma1", "lzma2", "lzma2f", "xz", "xzcat", "lzip", "delta:1", "delta:7", "x86", "arm", "armthumb", "arm64", "ppc", "sparc", "ia64", "riscv"];
     let m = if tier == "thorough" { 120 } else { 14 };
     for round in 0..m {
         for fmt in fmts {
@@ -367,6 +382,7 @@ pub fn gen(rng: &mut Rng, tier: &str, dist: &mut Dist) -> Vec<String> {
             }
             // raw filters have no framing: a truncated filter stream is a shorter valid stream
             let framed = matches!(fmt, "lzma1" | "lzma2" | "lzma2f" | "xz" | "lzip");
+            // (xzcat: the reader-side cases only; a cut between two streams is a complete file, and the writer is the harness's own concatenation)
             if framed && !stream.is_empty() {
                 // truncation points: a few random ones, plus every point for short streams
                 let pts: Vec<usize> = if stream.len() <= 48 { (0..stream.len()).collect() } else { (0..4).map(|_| rng.below(stream.len() as u64) as usize).chain([stream.len() - 1, stream.len() - 2, 1]).collect() };
